@@ -42,7 +42,7 @@ EXPLANATION = (
     "(G7) max_redirects reaches the client as the caller's own value. "
     "(G5, fresh) callers start the follower with a fresh chain. (G9) = C19.N1-N3 for the TOFU key of every hop."
     ' (G10) = C03.T2/T3 on the per-hop fetch: every literal verdict of TOFUDatabase.verify is handled, a failing one raises.'
-    ' (G11) = C03.T4. (G12) stateless client: the visited-URL chain and hop counter are per fetch. (G13) = C19.N7: the redirect target is fetched as the server sent it.'
+    ' (G11) = C03.T4. (G12) stateless client: the visited-URL chain and hop counter are per fetch. (G13) = C19.N7: the redirect target is fetched as the server sent it. (G14) every store to self.max_redirects assigns the max_redirects parameter of the constructor unaltered.'
 )
 
 SESSION = "client.session:GeminiClient"
@@ -315,9 +315,67 @@ def rule_g6(chk: Check) -> None:
         chk.ob("G6", f"GeminiResponse.{acc} returns the meta unaltered", ok, evals=len(rets))
 
 
+def rule_g14(chk: Check) -> None:
+    """The budget the follower is bounded by is the one the caller gave: every
+    store to ``self.max_redirects`` in the client assigns the like-named
+    parameter itself.  A truthiness idiom (``x or DEFAULT``, ``x if x else
+    DEFAULT``) turns the valid budget 0 into the default; arithmetic shifts
+    the bound."""
+    chk.rule("G14", "the budget is stored as given: every store to self.max_redirects assigns the max_redirects parameter unaltered (an `is None` default is the only accepted rewriting; 0 is a valid budget)")
+    ci = chk.proj.cls(SESSION)
+    stores = 0
+    for mname, fi in ci.methods.items():
+        sts = [st for st in walk(fi.node) if isinstance(st, (ast.Assign, ast.AnnAssign, ast.AugAssign)) and any(dotted(t) == "self.max_redirects" for t in (st.targets if isinstance(st, ast.Assign) else [st.target]))]
+        if not sts:
+            continue
+        g = build_cfg(chk.proj, fi)
+        d = Defs(g)
+        params = {a.arg for a in fi.node.args.args + fi.node.args.kwonlyargs}
+        for st in sts:
+            stores += 1
+            n = next((x for x in g.nodes if x.ast is st), None)
+            val = None if isinstance(st, ast.AugAssign) else st.value
+
+            def given(e, _n=n, depth=0) -> bool:
+                if e is None:
+                    return False
+                if isinstance(e, ast.IfExp):
+                    # `DEFAULT if p is None else p` / `p if p is not None else DEFAULT`
+                    t = e.test
+                    if isinstance(t, ast.Compare) and len(t.ops) == 1 and isinstance(t.comparators[0], ast.Constant) and t.comparators[0].value is None and isinstance(t.left, ast.Name) and t.left.id == "max_redirects":
+                        keep = e.orelse if isinstance(t.ops[0], ast.Is) else e.body if isinstance(t.ops[0], ast.IsNot) else None
+                        other = e.body if keep is e.orelse else e.orelse
+                        return keep is not None and given(keep, _n, depth + 1) and isinstance(other, (ast.Constant, ast.Name, ast.Attribute))
+                    return False
+                if isinstance(e, ast.Name):
+                    if _n is None or depth > 4:
+                        return e.id == "max_redirects" and e.id in params
+                    leaves = origins(d, _n, e)
+                    return bool(leaves) and all(
+                        (isinstance(le, ast.Name) and le.id == "max_redirects" and le.id in params)
+                        or (isinstance(le, _Sel) and le.name == "max_redirects" and le.selector == "param" and le.name in params)
+                        or (not isinstance(le, (ast.Name, _Sel)) and given(le, dn, depth + 1))
+                        for dn, le in leaves
+                    )
+                if isinstance(e, ast.Call) and dotted(e.func) == "int" and len(e.args) == 1 and not e.keywords:
+                    return given(e.args[0], _n, depth + 1)
+                return False
+
+            ok = given(val)
+            if not ok:
+                chk.finding(
+                    "G14", fi.key, f"budget-rewritten:{norm(val)[:50] if val is not None else 'augmented'}",
+                    f"self.max_redirects is stored as `{norm(val) if val is not None else norm(st)}` and not as the caller's max_redirects: a budget of 0 (or another value the expression rewrites) is replaced, so the fetch opens more connections than max_redirects + 1 or refuses chains it must follow",
+                    fi.loc(st),
+                )
+            chk.ob("G14", f"{fi.key}: self.max_redirects <- {norm(val)[:40] if val is not None else 'aug'}", ok)
+    chk.require("G14", f"{SESSION}", "stores to self.max_redirects", stores, 1, "the client never records the redirect budget it is given")
+
+
 def run(chk: Check) -> None:
     rule_g(chk)
     rule_g6(chk)
+    rule_g14(chk)
     from .c19 import wire_fidelity
 
     wire_fidelity(chk, "G9", "every hop is keyed for the pin check by the canonical host and port: ParsedURL.hostname is the lower-cased, unbracketed host for every spelling a redirect target may use (= C19.N1-N3)")
